@@ -1,8 +1,17 @@
 """C03 — Replication expands a workflow without changing its dataflow.
-Implementation driven: the real FlowIRConcrete(flowir).replicate() (-> FlowIR.apply_replicate -> propagate_replicate,
-compile_component_replica, compile_component_aggregate, ParseDataReferenceFull, compile_reference) and, for the
-cases that replicate without error, the real WorkflowGraph.graphFromFlowIR(..., primitive=False) (nodes, edges,
-per-node references).  Nothing is faked."""
+Implementation driven: the real FlowIRConcrete(flowir, ctor_platform).replicate(platform=..., ignore_errors=True)
+(-> instance(platform) -> FlowIR.apply_replicate -> propagate_replicate, compile_component_replica,
+compile_component_aggregate, ParseDataReferenceFull, compile_reference), FlowIR.apply_replicate driven directly with
+component dictionaries and one set of variables, and, for the cases that replicate without error, the real
+WorkflowGraph.graphFromFlowIR(..., platform=..., primitive=False) (-> FlowIRExperimentConfiguration.replicate();
+nodes, edges, per-node references).  Nothing is faked.
+
+A workflow (dict) has the keys comps / gvars / svars (the default platform) and optionally
+  platforms  ['default', P, ...]            pvars  {P: {'gvars': {...}, 'svars': {stage: {...}}}}
+  ctor       platform given to FlowIRConcrete(...)          req   platform given to replicate(platform=...)
+  entry      'concrete' (default) | 'direct' (FlowIR.apply_replicate)
+and a component optionally  agg_sp  (workflowAttributes.aggregate as written: bool / text / '%(v)s'; when absent the
+boolean `agg` is written as true / left out),  over  {P: {'rep': ..., 'agg_sp': ..., 'vars': {...}}}  (override.P)."""
 import json
 
 from common import clist, cstr, cbool, copt, cpair
@@ -13,8 +22,16 @@ ASSUMPTIONS = [
     'component names are drawn from [A-Za-z0-9_-] (no regular-expression metacharacters: compile_component_aggregate '
     'interpolates the reference unescaped into a regex; the "." of "stageN." is modelled as a literal dot), no "#" '
     '(DoWhile placeholders are outside this property), no application dependencies, no top-level folders',
-    'replica counts are non-negative integers given literally or as a whole-string %(name)s variable whose value is a '
-    'decimal string defined at component, stage or global scope; aggregate is a boolean',
+    'replica counts are non-negative integers given literally, as a decimal text or as a whole-string %(name)s variable '
+    'whose value is a decimal string defined at component, stage or global scope of the default or of another platform, or '
+    'in the component\'s override section of that platform; aggregate is a boolean, one of the texts to_bool accepts '
+    '(true/false/yes/no/y/n in any case; rarely another text, which must be refused) or a whole-string %(name)s variable '
+    'with such a value; variables are plain values (not defined in terms of other variables); no blueprints',
+    'the graph entry point is driven only for workflows without the one-letter spellings y/n and without a replicate or '
+    'a non-boolean aggregate in the override section of the platform expanded for: the validation that graphFromFlowIR '
+    'runs AFTER the expansion refuses them (convert_component_types knows no y/n; the schema check refuses the '
+    'replicate the copies carry in their override section and any aggregate there that is not a YAML boolean), which '
+    'is outside this property; those workflows are expanded through FlowIRConcrete.replicate() only',
     'workflows are generated acyclic (the model receives the components in a topological order, the implementation '
     'receives them grouped by stage as FlowIRConcrete stores them)',
     'the structured theorems are over parsed references; the textual layer is tied to them by C03_textual_refines '
@@ -24,7 +41,7 @@ ASSUMPTIONS = [
     'rt_ok) are evaluated inside Coq on every case by struct_check together with the conclusions; argument strings of '
     'aggregators and the parse/print round trip (rt_ok) are covered by the correspondence, not by a theorem',
 ]
-HEADER = 'Require Import V.Repl.Model.\nOpen Scope string_scope.'
+HEADER = 'Require Import V.Repl.Model V.Repl.Platform.\nOpen Scope string_scope.'
 
 METHODS = ['ref', 'copy', 'output', 'link', 'extract']
 NAMES = ['A', 'B', 'BA', 'AB', 'A0', 'A1', 'A00', 'a', 'a1', 'B0', 'AA', 'x-A', 'A_B', 'C', 'D', 'Ca', '0', '1', 'A10']
@@ -302,6 +319,241 @@ def classes_of(wf, info):
     return sorted(cls)
 
 
+# ------------------------------------------------------------------ spelling / platform layer (spec side)
+TRUE_WORDS = ['true', 'y', 'yes']
+FALSE_WORDS = ['false', 'n', 'no']
+TRUE_SP = [True, 'true', 'True', 'TRUE', 'yes', 'Yes', 'YES', 'y', 'Y']
+FALSE_SP = [False, 'false', 'False', 'no', 'No', 'n', 'N']
+PLATFORMS = ['hpc', 'lsf', 'cloud-1']
+FLAG_VARS = ['doAggregate', 'agg', 'flag']
+
+
+def is_var(x):
+    return isinstance(x, str) and x.startswith('%(') and x.endswith(')s')
+
+
+def target_platform(wf):
+    """the platform the expansion is asked for: replicate(platform=req) else the one of the object else default"""
+    if wf.get('entry', 'concrete') == 'direct':
+        return 'default'
+    return wf.get('req') or wf.get('ctor') or 'default'
+
+
+def written_flag(c):
+    if 'agg_sp' in c:
+        return c['agg_sp']
+    return True if c['agg'] else None
+
+
+def effective(wf):
+    """the workflow as the platform it is expanded for sees it, by the documented order of inheritance:
+    default global < platform global; default stage (minus what the platform defines globally) < platform stage;
+    component < its override for the platform; visible to a component: global < stage < component.
+    -> ('ok', plain workflow with integer/None counts and boolean flags) | ('error', why)"""
+    p = target_platform(wf)
+    if p not in wf.get('platforms', ['default']):
+        return ('error', 'unknown-platform')
+    pv = wf.get('pvars', {}).get(p, {}) if p != 'default' else {}
+    pg = pv.get('gvars', {})
+    g = dict(wf['gvars'])
+    g.update(pg)
+    comps = []
+    for c in wf['comps']:
+        st = c['stage']
+        sv = {k: v for k, v in wf['svars'].get(st, {}).items() if k not in pg}
+        sv.update(pv.get('svars', {}).get(st, {}))
+        o = c.get('over', {}).get(p, {}) if p != 'default' else {}
+        cv = dict(c['cvars'])
+        cv.update(o.get('vars', {}))
+
+        def value(x):
+            if is_var(x):
+                for scope in (cv, sv, g):
+                    if x[2:-2] in scope:
+                        return str(scope[x[2:-2]])
+                raise KeyError(x)
+            return x
+        rep = o['rep'] if o.get('rep') is not None else c['rep']
+        flag = o['agg_sp'] if o.get('agg_sp') is not None else written_flag(c)
+        try:
+            rep = value(rep)
+            flag = value(flag)
+        except KeyError:
+            return ('error', 'unknown-variable')
+        if isinstance(rep, str):
+            if not (rep.isdigit() and rep.isascii()):
+                return ('error', 'count-not-a-number')
+            rep = int(rep)
+        if flag is None:
+            flag = False
+        elif not isinstance(flag, bool):
+            if flag.lower() in TRUE_WORDS:
+                flag = True
+            elif flag.lower() in FALSE_WORDS:
+                flag = False
+            else:
+                return ('error', 'aggregate-not-a-boolean')
+        comps.append({'stage': st, 'name': c['name'], 'refs': c['refs'], 'args': c['args'], 'rep': rep, 'agg': flag,
+                      'cvars': {}})
+    return ('ok', {'comps': comps, 'gvars': {}, 'svars': {}})
+
+
+def graph_safe(wf):
+    """the validation after the expansion (not part of this property) accepts the workflow: see ASSUMPTIONS"""
+    p = target_platform(wf)
+    words = []
+    for c in wf['comps']:
+        words.append(written_flag(c))
+        words += list(c['cvars'].values())
+        for q, o in c.get('over', {}).items():
+            words.append(o.get('agg_sp'))
+            words += list(o.get('vars', {}).values())
+            if q == p and (o.get('rep') is not None or not isinstance(o.get('agg_sp'), (bool, type(None)))):
+                return False
+    scopes = [wf['gvars']] + list(wf['svars'].values())
+    for pv in wf.get('pvars', {}).values():
+        scopes += [pv.get('gvars', {})] + list(pv.get('svars', {}).values())
+    for sc in scopes:
+        words += list(sc.values())
+    return not any(isinstance(x, str) and x.lower() in ('y', 'n') for x in words)
+
+
+def put_var(rng, wf, c, name, val, platform=None):
+    """define `name` somewhere the component sees it (component / stage / global scope of the default platform, or
+    of `platform`: its global / stage variables or the component's override section)"""
+    u = rng.random()
+    st = c['stage']
+    if platform is None:
+        if u < 0.4:
+            c['cvars'][name] = val
+        elif u < 0.7:
+            wf['svars'].setdefault(st, {})[name] = val
+        else:
+            wf['gvars'][name] = val
+    else:
+        pv = wf.setdefault('pvars', {}).setdefault(platform, {'gvars': {}, 'svars': {}})
+        if u < 0.3:
+            c.setdefault('over', {}).setdefault(platform, {}).setdefault('vars', {})[name] = val
+        elif u < 0.6:
+            pv['svars'].setdefault(st, {})[name] = val
+        else:
+            pv['gvars'][name] = val
+
+
+def spell_flag(rng, wf, c, value, platform=None, junk=0.0):
+    """a way of writing the boolean `value` (a later definition of the same variable in a nearer scope may change
+    what it reads: the specification reads the finished workflow)"""
+    words = TRUE_SP if value else FALSE_SP
+    if rng.random() < junk:
+        words = ['maybe', '1', 'si']
+    if rng.random() < 0.5:
+        return rng.choice(words)
+    name = rng.choice(FLAG_VARS)
+    put_var(rng, wf, c, name, rng.choice(words), platform)
+    return '%%(%s)s' % name
+
+
+def respell(rng, wf):
+    """dimension 1: how workflowAttributes.aggregate (and a literal count) is written"""
+    for c in wf['comps']:
+        if c['agg']:
+            if rng.random() < 0.8:
+                c['agg_sp'] = spell_flag(rng, wf, c, True, junk=0.02)
+        elif rng.random() < 0.3:
+            c['agg_sp'] = spell_flag(rng, wf, c, False, junk=0.02)
+        if isinstance(c['rep'], int) and rng.random() < 0.3:
+            c['rep'] = str(c['rep']) if rng.random() < 0.95 else 'two'
+    return wf
+
+
+def platformise(rng, wf):
+    """dimension 2: a second platform on which the counts (and some flags) differ, and the platforms the object is
+    built for / the expansion is asked for"""
+    p = rng.choice(PLATFORMS)
+    wf['platforms'] = ['default', p] if rng.random() < 0.8 else ['default', p, 'other']
+    pv = wf.setdefault('pvars', {}).setdefault(p, {'gvars': {}, 'svars': {}})
+    n2 = rng.choice([1, 2, 3, 4, 5, 11])
+    for c in wf['comps']:
+        st = c['stage']
+        if c['rep'] is not None and rng.random() < 0.88:
+            r = c['rep']
+            if is_var(r):
+                v = r[2:-2]
+                val = str(n2) if rng.random() < 0.8 else n2
+                if v in c['cvars']:
+                    c.setdefault('over', {}).setdefault(p, {}).setdefault('vars', {})[v] = val
+                elif v in wf['svars'].get(st, {}):
+                    # a platform's global variable hides the default platform's stage variable
+                    if rng.random() < 0.5:
+                        pv['gvars'][v] = val
+                    else:
+                        pv['svars'].setdefault(st, {})[v] = val
+                else:
+                    if rng.random() < 0.7:
+                        pv['gvars'][v] = val
+                    else:
+                        pv['svars'].setdefault(st, {})[v] = val
+            else:
+                u = rng.random()
+                o = c.setdefault('over', {}).setdefault(p, {})
+                if u < 0.4:
+                    o['rep'] = n2
+                elif u < 0.6:
+                    o['rep'] = str(n2)
+                else:
+                    v = rng.choice(['pn', 'n'])
+                    o['rep'] = '%%(%s)s' % v
+                    put_var(rng, wf, c, v, str(n2), p)
+        elif c['rep'] is None and not c['refs'] and rng.random() < 0.1:
+            c.setdefault('over', {}).setdefault(p, {})['rep'] = n2          # replicated on this platform only
+        if rng.random() < 0.12:
+            # the flag differs on this platform
+            now = c['agg']
+            c.setdefault('over', {}).setdefault(p, {})['agg_sp'] = spell_flag(rng, wf, c, not now, p)
+        elif c['agg'] and rng.random() < 0.2:
+            c.setdefault('over', {}).setdefault(p, {})['agg_sp'] = spell_flag(rng, wf, c, True, p)
+    wf['ctor'] = rng.choice([None, 'default', p, p])
+    wf['req'] = rng.choice([None, 'default', p, p, p]) if rng.random() < 0.96 else rng.choice(['', 'nope'])
+    return wf
+
+
+def shadow(rng, wf):
+    """dimension 1b: the same variable defined in a farther scope with another value - the nearer scope wins"""
+    for c in wf['comps']:
+        st = c['stage']
+        for x, other in ((c['rep'], lambda v: str(int(v) + rng.choice([1, 2])) if str(v).isdigit() else '7'),
+                         (c.get('agg_sp'), lambda v: 'no' if str(v).lower() in TRUE_WORDS else 'yes')):
+            if not is_var(x) or rng.random() < 0.4:
+                continue
+            v = x[2:-2]
+            scopes = [c['cvars'], wf['svars'].setdefault(st, {}), wf['gvars']]
+            near = [i for i in range(3) if v in scopes[i]]
+            far = [i for i in range(3) if near and i > near[0] and v not in scopes[i]]
+            if far:
+                scopes[rng.choice(far)][v] = other(scopes[near[0]][v])
+    for st in [k for k, d in wf['svars'].items() if not d]:
+        del wf['svars'][st]
+    return wf
+
+
+def decorate(rng, wf):
+    u = rng.random()
+    if rng.random() < 0.35:
+        shadow(rng, wf)
+    if u < 0.45:
+        respell(rng, wf)
+        if rng.random() < 0.35:
+            shadow(rng, wf)
+        if rng.random() < 0.45:
+            wf['entry'] = 'direct'
+    elif u < 0.8:
+        platformise(rng, wf)
+    else:
+        respell(rng, wf)
+        platformise(rng, wf)
+    return wf
+
+
 # ------------------------------------------------------------------ driving the implementation
 def to_flowir(wf, order=None):
     comps = []
@@ -314,25 +566,57 @@ def to_flowir(wf, order=None):
         wa = {}
         if c['rep'] is not None:
             wa['replicate'] = c['rep']
-        if c['agg']:
-            wa['aggregate'] = True
+        if written_flag(c) is not None:
+            wa['aggregate'] = written_flag(c)
         if wa:
             d['workflowAttributes'] = wa
         if c['cvars']:
             d['variables'] = dict(c['cvars'])
+        for p, o in sorted(c.get('over', {}).items()):
+            od = {}
+            owa = {}
+            if o.get('rep') is not None:
+                owa['replicate'] = o['rep']
+            if o.get('agg_sp') is not None:
+                owa['aggregate'] = o['agg_sp']
+            if owa:
+                od['workflowAttributes'] = owa
+            if o.get('vars'):
+                od['variables'] = dict(o['vars'])
+            if od:
+                d.setdefault('override', {})[p] = od
         comps.append(d)
     var = {'global': dict(wf['gvars'])}
     if wf['svars']:
         var['stages'] = {int(s): dict(v) for s, v in wf['svars'].items()}
-    return {'components': comps, 'variables': {'default': var}}
+    out = {'components': comps, 'variables': {'default': var}}
+    if 'platforms' in wf:
+        out['platforms'] = list(wf['platforms'])
+        for p in wf['platforms']:
+            if p == 'default':
+                continue
+            pv = wf.get('pvars', {}).get(p, {})
+            out['variables'][p] = {'global': dict(pv.get('gvars', {})),
+                                   'stages': {int(s): dict(v) for s, v in pv.get('svars', {}).items()}}
+    return out
 
 
 def run_replicate(wf, order=None):
     """('ok', [ (stage, name, refs, args, replica, replicate, aggregate) ]) or ('error', class name)"""
     import experiment.model.frontends.flowir as F
     try:
-        conc = F.FlowIRConcrete(to_flowir(wf, order), None, {})
-        rep = conc.replicate(ignore_errors=True)
+        fl = to_flowir(wf, order)
+        if wf.get('entry', 'concrete') == 'direct':
+            # the functions the property names, driven directly: component dictionaries + one set of variables
+            var = fl['variables']['default']
+            rep = {'components': F.FlowIR.apply_replicate(
+                fl['components'], {'global': var['global'], 'stages': var.get('stages', {})}, False, [], [])}
+        else:
+            conc = F.FlowIRConcrete(fl, wf.get('ctor'), {})
+            if 'req' in wf:
+                rep = conc.replicate(platform=wf['req'], ignore_errors=True)
+            else:
+                rep = conc.replicate(ignore_errors=True)
     except Exception as e:
         return ('error', type(e).__name__)
     out = []
@@ -340,7 +624,7 @@ def run_replicate(wf, order=None):
         va = c.get('variables', {}) or {}
         wa = c.get('workflowAttributes', {}) or {}
         out.append((c['stage'], c['name'], list(c.get('references', []) or []), c.get('command', {}).get('arguments', ''),
-                    va.get('replica'), wa.get('replicate'), bool(wa.get('aggregate'))))
+                    va.get('replica'), wa.get('replicate'), wa.get('aggregate')))
     return ('ok', out)
 
 
@@ -348,7 +632,11 @@ def run_graph(wf, order=None):
     """('ok', nodes, edges, refs per node) or ('error', class)"""
     import experiment.model.graph as G
     try:
-        g = G.WorkflowGraph.graphFromFlowIR(to_flowir(wf, order), {}, primitive=False)
+        p = target_platform(wf)
+        if 'platforms' in wf:
+            g = G.WorkflowGraph.graphFromFlowIR(to_flowir(wf, order), {}, platform=p, primitive=False)
+        else:
+            g = G.WorkflowGraph.graphFromFlowIR(to_flowir(wf, order), {}, primitive=False)
         gr = g.graph
         nodes = sorted(gr.nodes)
         edges = sorted((a, b) for a, b in gr.edges)
@@ -378,6 +666,51 @@ def coq_wf(wf):
                      cassoc(c['cvars'])))
     sv = clist(sorted(wf['svars'].items()), lambda kv: '(%s, %s)' % (cN(int(kv[0])), cassoc(kv[1])))
     return '{| w_comps := %s; w_gvars := %s; w_svars := %s |}' % (clist(cs), cassoc(wf['gvars']), sv)
+
+
+def c_cspec(r):
+    if r is None:
+        return 'CNone'
+    if isinstance(r, int):
+        return '(CLit %s)' % cN(r)
+    return '(CVar %s)' % cstr(r[2:-2]) if is_var(r) else '(CText %s)' % cstr(r)
+
+
+def c_aspec(a):
+    if a is None:
+        return 'ANone'
+    if isinstance(a, bool):
+        return '(ABool %s)' % cbool(a)
+    return '(AVar %s)' % cstr(a[2:-2]) if is_var(a) else '(AText %s)' % cstr(a)
+
+
+def c_pvars(gv, sv):
+    return '{| p_global := %s; p_stages := %s |}' % (
+        cassoc(gv), clist(sorted(sv.items()), lambda kv: '(%s, %s)' % (cN(int(kv[0])), cassoc(kv[1]))))
+
+
+def coq_rwf(wf):
+    cs = []
+    for c in wf['comps']:
+        ov = clist(sorted(c.get('over', {}).items()),
+                   lambda kv: '(%s, {| ov_rep := %s; ov_agg := %s; ov_vars := %s |})' % (
+                       cstr(kv[0]), c_cspec(kv[1].get('rep')), c_aspec(kv[1].get('agg_sp')), cassoc(kv[1].get('vars', {}))))
+        cs.append('{| r_stage := %s; r_name := %s; r_refs := %s; r_args := %s; r_rep := %s; r_agg := %s; r_vars := %s; '
+                  'r_over := %s |}' % (cN(c['stage']), cstr(c['name']), clist(c['refs'], cstr), cstr(c['args']),
+                                       c_cspec(c['rep']), c_aspec(written_flag(c)), cassoc(c['cvars']), ov))
+    pvs = [('default', c_pvars(wf['gvars'], wf['svars']))]
+    for p in wf.get('platforms', ['default']):
+        if p != 'default':
+            pv = wf.get('pvars', {}).get(p, {})
+            pvs.append((p, c_pvars(pv.get('gvars', {}), pv.get('svars', {}))))
+    return '{| rw_platforms := %s; rw_vars := %s; rw_comps := %s |}' % (
+        clist(wf.get('platforms', ['default']), cstr), clist(pvs, lambda kv: '(%s, %s)' % (cstr(kv[0]), kv[1])), clist(cs))
+
+
+def coq_entry(wf):
+    """constructor platform, requested platform, driven directly?"""
+    return '%s, %s, %s' % (copt(wf.get('ctor'), cstr), copt(wf.get('req'), cstr),
+                           cbool(wf.get('entry', 'concrete') == 'direct'))
 
 
 def coq_out(im):
@@ -456,35 +789,63 @@ def explore(ctx, cases, with_graph=True):
     """cases: list of (workflow, order given to the implementation)"""
     terms = []
     for wf, order in cases:
-        sp = spec_expand(wf)
+        ef = effective(wf)
+        sp = spec_expand(ef[1]) if ef[0] == 'ok' else ef
         im = run_replicate(wf, order)
-        cls = classes_of(wf, sp[1]) if sp[0] == 'ok' else []
+        cls = classes_of(ef[1], sp[1]) if sp[0] == 'ok' else []
+        direct = wf.get('entry', 'concrete') == 'direct'
         g = None
-        if with_graph and sp[0] == 'ok' and im[0] == 'ok' and not cls:
+        if with_graph and sp[0] == 'ok' and im[0] == 'ok' and not cls and not direct and graph_safe(wf):
             g = run_graph(wf, order)
             ctx.count('graph_built' if g[0] == 'ok' else 'graph_error')
         nrep = sum(1 for o in sp[2] if o['replica'] is not None) if sp[0] == 'ok' else 0
-        nagg = sum(1 for c in wf['comps'] if c['agg']) if sp[0] == 'ok' else 0
+        nagg = sum(1 for c in ef[1]['comps'] if c['agg']) if sp[0] == 'ok' else 0
         nontriv = nrep >= 2 and any(len(c['refs']) > 0 for c in wf['comps'])
-        ctx.case(to_flowir(wf), nontriv)
+        decorated = any(k in wf for k in ('platforms', 'ctor', 'req', 'entry')) or \
+            any('agg_sp' in c or 'over' in c for c in wf['comps'])
+        ctx.case({'flowir': to_flowir(wf), 'ctor': wf.get('ctor'), 'req': wf.get('req', 'unset'),
+                  'entry': wf.get('entry', 'concrete')} if decorated else to_flowir(wf), nontriv)
         ctx.count('components_%d' % len(wf['comps']))
         ctx.count('outcome_' + (sp[1] if sp[0] == 'error' else 'expanded'))
+        ctx.count('entry_' + ('apply_replicate_direct' if direct else
+                              'concrete_replicate+graph' if g is not None else 'concrete_replicate'))
+        if 'platforms' in wf:
+            tp = target_platform(wf)
+            act = wf.get('ctor') or 'default'
+            ctx.count('platform_requested_%s' % ('none' if not wf.get('req') else 'default' if tp == 'default' else 'other'))
+            if tp != act and ef[0] == 'ok':
+                alt = effective(dict(wf, req=None))
+                same = alt[0] == 'ok' and [(c['rep'], c['agg']) for c in alt[1]['comps']] == \
+                    [(c['rep'], c['agg']) for c in ef[1]['comps']]
+                ctx.count('requested_platform_differs_from_active' + ('' if same else '_and_changes_counts_or_flags'))
+        for c in wf['comps']:
+            for a in [c.get('agg_sp')] + [o.get('agg_sp') for o in c.get('over', {}).values()]:
+                if a is not None:
+                    ctx.count('flag_written_as_' + ('variable' if is_var(a) else 'bool' if isinstance(a, bool) else 'text'))
         if sp[0] == 'ok':
             ctx.count('replica_copies_%s' % ('0' if nrep == 0 else '1-3' if nrep < 4 else '4-9' if nrep < 10 else '10+'))
             ctx.count('with_aggregator' if nagg else 'without_aggregator')
             ctx.count('class_' + ('+'.join(cls) if cls else 'none'))
-            if any(isinstance(c['rep'], str) for c in wf['comps']):
+            if any(is_var(c['rep']) for c in wf['comps']):
                 ctx.count('count_via_variable')
+            if any(ec['agg'] and ec['rep'] is None and not isinstance(written_flag(c), bool)
+                   for c, ec in zip(wf['comps'], ef[1]['comps'])):
+                ctx.count('aggregator_without_own_count_flag_not_a_literal_bool')
         predicate(ctx, wf, sp, im, g, cls)
-        terms.append(('(%s, %s, %s)' % (coq_wf(wf), coq_out(im), coq_graph(g)), wf, im, g))
+        terms.append(('(%s, %s, %s, %s)' % (coq_rwf(wf), coq_entry(wf), coq_out(im), coq_graph(g)), wf, im, g))
         if nontriv and not cls:
             ctx.sample({'workflow': to_flowir(wf), 'replicated': im[1] if im[0] == 'ok' else im[1]}, limit=3)
-    bad = ctx.model_mismatches(HEADER, [t[0] for t in terms], 'check_case', chunk=120)
+    bad = ctx.model_mismatches(HEADER, [t[0] for t in terms], 'check_pcase', chunk=120)
     for k, i in enumerate(bad):
         _, wf, im, g = terms[i]
-        m = ctx.model_eval(HEADER, '(struct_check %s, expand_t %s)' % (coq_wf(wf), coq_wf(wf))) if k < 2 else ''
+        m = ''
+        if k < 2:
+            sel = 'select %s %s' % (coq_rwf(wf), cstr(target_platform(wf)))
+            m = ctx.model_eval(HEADER, '(%s, match %s with Some t => (struct_check t, expand_t t) | None => (true, None) end)'
+                               % (sel, sel))
         ctx.disagree({'workflow': wf}, {'replicate': im, 'graph': g}, m,
-                     'C03 expansion: FlowIRConcrete.replicate()/graphFromFlowIR vs Repl.Model.expand_t (+ structured agreement)')
+                     'C03 expansion: FlowIRConcrete.replicate(platform)/apply_replicate/graphFromFlowIR vs '
+                     'Repl.Platform.replicate_concrete = Repl.Model.expand_t of the selected workflow (+ structured agreement)')
 
 
 WITNESS_F3 = {'gvars': {}, 'svars': {}, 'comps': [
@@ -501,21 +862,145 @@ WITNESS_F3C = {'gvars': {}, 'svars': {}, 'comps': [
     {'stage': 0, 'name': 'C', 'refs': ['A:ref', 'stage0.A:ref'], 'args': 'hi', 'rep': None, 'agg': True, 'cvars': {}}]}
 
 
+def _c(stage, name, refs=(), rep=None, agg=False, args=None, **kw):
+    d = {'stage': stage, 'name': name, 'refs': list(refs), 'args': ' '.join(refs) if args is None else args, 'rep': rep,
+         'agg': agg, 'cvars': {}}
+    d.update(kw)
+    return d
+
+
+# fixed corpus for the boundaries of the spelling / platform / entry-point dimensions (every one must expand as the
+# specification says on the unchanged tree)
+CORPUS = [
+    # an aggregator that asks for no replicas itself, flag through a global variable; its consumer stays single
+    {'gvars': {'k': '3', 'collect': 'yes'}, 'svars': {}, 'comps': [
+        _c(0, 'Gen', rep='%(k)s'), _c(0, 'Sim', ['Gen:ref']), _c(1, 'Sum', ['stage0.Sim:ref'], agg=True, agg_sp='%(collect)s'),
+        _c(1, 'Tab', ['Sum:ref'])]},
+    # one-letter spelling, apply_replicate driven directly; the flag of the stage scope beats the global one
+    {'gvars': {'on': 'n'}, 'svars': {1: {'on': 'Y'}}, 'entry': 'direct', 'comps': [
+        _c(0, 'Gen', rep='2'), _c(1, 'Merge', ['stage0.Gen/out.txt:copy'], agg=True, agg_sp='%(on)s'),
+        _c(1, 'Mix', ['stage0.Gen:ref'], agg=True, agg_sp='y'), _c(1, 'Viz', ['stage0.Gen:ref'], agg_sp='N')]},
+    # a flag that reads false keeps the component inside the replicated region; a boolean variable value
+    {'gvars': {'keep': False, 'all': True}, 'svars': {}, 'comps': [
+        _c(0, 'Obs', rep=2), _c(0, 'Fit', ['Obs:ref'], agg_sp='%(keep)s'), _c(0, 'Run', ['Fit:output'], agg_sp='No'),
+        _c(1, 'Plot', ['stage0.Run:ref', 'stage0.Obs:ref'], agg=True, agg_sp='%(all)s')]},
+    # a text that is no boolean must be refused
+    {'gvars': {}, 'svars': {}, 'comps': [_c(0, 'Obs', rep=2), _c(0, 'Fit', ['Obs:ref'], agg=True, agg_sp='maybe')]},
+    # the count differs per platform through a global variable: object built for default, expansion asked for hpc
+    {'gvars': {'k': '2'}, 'svars': {}, 'platforms': ['default', 'hpc'], 'pvars': {'hpc': {'gvars': {'k': '5'}, 'svars': {}}},
+     'ctor': None, 'req': 'hpc', 'comps': [
+        _c(0, 'Gen', rep='%(k)s'), _c(0, 'Sim', ['Gen:ref']), _c(1, 'Sum', ['stage0.Sim:ref'], agg=True)]},
+    # ... and the other way round, with the count in the override section (literal on default)
+    {'gvars': {}, 'svars': {}, 'platforms': ['default', 'lsf'], 'pvars': {'lsf': {'gvars': {}, 'svars': {}}},
+     'ctor': 'lsf', 'req': 'default', 'comps': [
+        _c(0, 'Gen', rep=1, over={'lsf': {'rep': 4}}), _c(1, 'Post', ['stage0.Gen:ref']),
+        _c(1, 'Sum', ['Post:ref'], agg=True)]},
+    # the default platform's stage variable is hidden by the other platform's global one; no request: active platform
+    {'gvars': {}, 'svars': {0: {'k': '3'}}, 'platforms': ['default', 'hpc'],
+     'pvars': {'hpc': {'gvars': {'k': '2'}, 'svars': {}}}, 'ctor': 'hpc', 'comps': [
+        _c(0, 'Gen', rep='%(k)s'), _c(0, 'Sim', ['Gen:ref'])]},
+    # the flag differs on the platform (override), the override's own variable decides; unknown platform refused
+    {'gvars': {}, 'svars': {}, 'platforms': ['default', 'hpc'], 'pvars': {'hpc': {'gvars': {}, 'svars': {}}},
+     'ctor': 'default', 'req': 'hpc', 'comps': [
+        _c(0, 'Gen', rep=3), _c(0, 'Sim', ['Gen:ref'], over={'hpc': {'agg_sp': '%(f)s', 'vars': {'f': 'TRUE'}}}),
+        _c(1, 'Tab', ['stage0.Sim:ref'])]},
+    {'gvars': {}, 'svars': {}, 'platforms': ['default', 'hpc'], 'pvars': {'hpc': {'gvars': {}, 'svars': {}}},
+     'ctor': 'default', 'req': 'nope', 'comps': [_c(0, 'Gen', rep=3), _c(0, 'Sim', ['Gen:ref'])]},
+]
+
+
+def systematic(rng):
+    """one generated workflow with an aggregator written in every spelling through both entry points, and one
+    workflow with a second platform expanded for every (constructor platform, requested platform) pair"""
+    import copy
+    out = []
+    base = None
+    for _ in range(200):
+        wf = gen_workflow(rng, 'clean')
+        sp = spec_expand(wf)
+        if sp[0] == 'ok' and any(c['agg'] and c['rep'] is None and c['refs'] for c in wf['comps']) and \
+                any(o['replica'] is not None for o in sp[2]):
+            base = wf
+            break
+    if base is not None:
+        k = [i for i, c in enumerate(base['comps']) if c['agg'] and c['rep'] is None and c['refs']][0]
+        st = base['comps'][k]['stage']
+        for entry in ('concrete', 'direct'):
+            for word in TRUE_SP:
+                forms = [('text', word)]
+                if word is not True:
+                    forms += [('cvars', word), ('svars', word), ('gvars', word)]
+                for where, w in forms:
+                    wf = copy.deepcopy(base)
+                    wf['entry'] = entry
+                    c = wf['comps'][k]
+                    if where == 'text':
+                        c['agg_sp'] = w
+                    else:
+                        c['agg_sp'] = '%(isAggregating)s'
+                        if where == 'cvars':
+                            c['cvars']['isAggregating'] = w
+                        elif where == 'svars':
+                            wf['svars'].setdefault(st, {})['isAggregating'] = w
+                        else:
+                            wf['gvars']['isAggregating'] = w
+                    out.append(wf)
+    for _ in range(200):
+        wf = platformise(rng, gen_workflow(rng, 'clean'))
+        p = wf['platforms'][1]
+        a, b = effective(dict(wf, ctor=None, req=None)), effective(dict(wf, ctor=None, req=p))
+        if a[0] == 'ok' and b[0] == 'ok' and spec_expand(a[1])[0] == 'ok' and spec_expand(b[1])[0] == 'ok' and \
+                [c['rep'] for c in a[1]['comps']] != [c['rep'] for c in b[1]['comps']]:
+            for ctor in (None, 'default', p):
+                for req in ('unset', None, 'default', p):
+                    w2 = copy.deepcopy(wf)
+                    w2['ctor'] = ctor
+                    w2.pop('req', None)
+                    if req != 'unset':
+                        w2['req'] = req
+                    out.append(w2)
+            break
+    return out
+
+
 def run(ctx):
     rng = ctx.rng
     ctx.rule = ('random acyclic workflows (2-8 components, 1-3 stages) over a small alphabet of component names '
                 '(prefix/suffix/substring pairs, names ending in digits, equal names in different stages), relative and '
                 'absolute spellings, files and 5 methods, non-component references, replica counts literal or via '
                 'component/stage/global variables, aggregators, chains; 35% of the cases use non-overlapping names; the '
-                'implementation receives the components in a shuffled order; non-trivial = at least two replica copies '
-                'are produced and some component has references; distinct by the whole workflow')
+                'implementation receives the components in a shuffled order. A further third of the cases are such '
+                'workflows decorated along two more dimensions: (1) spelling - workflowAttributes.aggregate written as a '
+                'boolean, as any of the texts true/false/yes/no/y/n in several letter cases or as %(variable)s defined at '
+                'component, stage or global scope (2% a text that is no boolean), the same variable defined with another value in '
+                'a farther scope (the nearer one wins), literal counts written as text, expanded '
+                'through FlowIRConcrete.replicate(), graphFromFlowIR(primitive=False) or FlowIR.apply_replicate driven '
+                'directly; (2) platform - a second platform on which counts and flags differ through its global / stage '
+                'variables (also hiding a stage variable of the default platform) or the component\'s override section '
+                '(workflowAttributes and variables), the object built for one platform (none/default/other) and the '
+                'expansion requested for one (unset/none/default/other, rarely empty or unknown), the graph built for '
+                'the requested platform; plus a fixed corpus and two systematic families (every spelling x entry point '
+                'of one aggregator; every constructor x requested platform pair of one workflow). non-trivial = at '
+                'least two replica copies are produced and some component has references; distinct by the whole '
+                'workflow and entry')
     n = 1100 if ctx.tier == 'quick' else 12000
+    nd = 380 if ctx.tier == 'quick' else 4200
     cases = [(WITNESS_F3, None), (WITNESS_F3B, None), (WITNESS_F3C, None)]
+    cases += [(wf, None) for wf in CORPUS]
     for k in range(n):
         mode = 'clean' if rng.random() < 0.35 else 'mixed'
         wf = gen_workflow(rng, mode)
         cases.append((wf, shuffled_order(rng, wf)))
+    cases += [(wf, None) for wf in systematic(rng)]
+    for k in range(nd):
+        mode = 'clean' if rng.random() < 0.6 else 'mixed'
+        wf = decorate(rng, gen_workflow(rng, mode))
+        cases.append((wf, shuffled_order(rng, wf)))
     explore(ctx, cases)
+
+
+def _intkeys(d):
+    return {int(k): v for k, v in (d or {}).items()}
 
 
 def replay(ctx, path):
@@ -525,7 +1010,9 @@ def replay(ctx, path):
         print('replay file names no input (proof obligation): re-run ./check C03')
         return 2
     wf = c['workflow']
-    wf['svars'] = {int(k): v for k, v in wf.get('svars', {}).items()}
+    wf['svars'] = _intkeys(wf.get('svars'))
+    for pv in wf.get('pvars', {}).values():
+        pv['svars'] = _intkeys(pv.get('svars'))
     explore(ctx, [(wf, None)])
     for f in ctx.failures:
         print('REPRODUCED: %s' % f['what'])
